@@ -82,7 +82,7 @@ Proof.
     destruct (marked it); [now apply IH|].
     assert (S : fshape (update w (set_mark it) its) = fshape its) by (eapply fshape_update; eauto).
     assert (ND' : NoDup (keys (update w (set_mark it) its))) by (rewrite keys_update; auto).
-    destruct (hasflag (iflags it) LEAF_BIT); intros E; apply IH in E; auto; congruence.
+    destruct (noscan it); intros E; apply IH in E; auto; congruence.
 Qed.
 Lemma mark_loop_fshape fuel o a : forall pend its its',
   NoDup (keys its) -> mark_loop fuel o a pend its = Some its' -> fshape its' = fshape its.
@@ -316,7 +316,7 @@ Proof.
         assert (fc (ifin it) k <= fcnt (items g) k).
         { pose proof (fcnt_remove ptr it (items g) k ND L). pose proof (fcnt_nonneg (remove ptr (items g)) k). lia. }
         pose proof (lcnt_nonneg (log g) k). pose proof (dcnt_nonneg (dropped g) k). unfold tot. lia.
-  - destruct (lookup ptr (items g)); auto. unfold gc_dealloc.
+  - destruct (lookup ptr (items g)); auto. destruct (dealloc_ok _); auto. unfold gc_dealloc.
     pose proof (FDI_unregister true ptr g ND I) as I1. destruct (ptr =? 0); auto.
   - destruct (lookup ptr (items g)); auto. now apply FDI_unregister.
   - destruct (_ && _); auto. apply FDI_register; auto. intros k. cbn [fc]. destruct I as [N H]. destruct (H k). split; lia.
